@@ -43,7 +43,15 @@ ProjV(v) ==
 LogP(log) == [i \in 1..Len(log) |-> [f |-> log[i].f, args |-> [j \in 1..Len(log[i].args) |-> NormVal(ProjV(log[i].args[j]))]]]
 LogN(log) == [i \in 1..Len(log) |-> [f |-> log[i].f, args |-> [j \in 1..Len(log[i].args) |-> NormVal(log[i].args[j])]]]
 
+\* programs at the limit of the encoding (flag big): only the jump structure of what the compiler emitted is judged
+JudgeBig(rec) ==
+  LET o == rec.obs IN
+  IF "died" \in DOMAIN o THEN {"total"}
+  ELSE IF ~o.acc THEN {}
+  ELSE {"verify_" \o w : w \in VerifyJumps(o.code)}
+         \cup UNION {{"verify_" \o w : w \in VerifyJumps(o.pool[i].code)} : i \in {j \in 1..Len(o.pool) : o.pool[j].ck = "thunk"}}
 Judge(rec) ==
+  IF "big" \in DOMAIN rec THEN JudgeBig(rec) ELSE
   LET o == rec.obs
       died == "died" \in DOMAIN o
       run == RunOfRec(rec) IN
@@ -79,7 +87,7 @@ Judge(rec) ==
      \* diagnostic only (never a verdict): is the encoding byte-identical to the specification's scheme?
      \cup (IF spec.ok /\ (spec.code # o.code) THEN {"diag_bytes"} ELSE {})
 
-Skip(rec) == LET run == RunOfRec(rec) IN IF run.acc /\ run.r.st = "ood" THEN "ood" ELSE ""
+Skip(rec) == IF "big" \in DOMAIN rec THEN "" ELSE LET run == RunOfRec(rec) IN IF run.acc /\ run.r.st = "ood" THEN "ood" ELSE ""
 
 Init == st \in {[c |-> c, l |-> ChunkLo(c, N)] : c \in 1..NChunks}
 Next == /\ st.l <= ChunkHi(st.c, N)
